@@ -135,55 +135,66 @@ def hasPushPop (a : Arch) (g : Nat) : Bool :=
 def Frame.groupSaveSize (f : Frame) (g : Nat) : Nat :=
   alignUp (u32 (popcnt32 (f.saved g) * f.srSize g)) (f.srAlign g)
 
-/-! ### `FuncFrame::finalize` -/
+/-! ### `FuncFrame::finalize`
 
-def Frame.finalize (f : Frame) : Frame :=
+Written as a chain of small definitions (one per assignment group of the C++ function) so that each
+reported field has a name the theorems can talk about; `Frame.finalize` assembles them. -/
+
+/-- first part of `finalize`: FP / LR / SA register made dirty, `_sp_reg_id`, `_sa_reg_id` -/
+def Frame.fin1 (f : Frame) : Frame :=
   let a := f.arch
-  let registerSize := f.srSize 0
-  let vectorSize := f.srSize 1
-  let retAddrSize := if a.lrId.isSome then 0 else registerSize
-  let stackAlignment := f.finalAlign
-  let hasFp := f.hasFP
-  let hasDa := f.hasDA
   let kSp := a.spId
   let kFp := a.fpId
-  -- dirty |= FP (| LR)
   let d0 := f.dirty 0
-  let d0 := if hasFp then (d0 ||| bit kFp) ||| (match a.lrId with | some lr => bit lr | none => 0) else d0
+  let d0 := if f.hasFP then (d0 ||| bit kFp) ||| (match a.lrId with | some lr => bit lr | none => 0) else d0
   let sa := f.saRegId
   let sa := if sa = 0xFF then kSp else sa
-  let sa := if hasDa ∧ sa = kSp then kFp else sa
+  let sa := if f.hasDA ∧ sa = kSp then kFp else sa
   let d0 := if sa ≠ kSp then d0 ||| bit sa else d0
-  let f1 : Frame := { f with dirty := fun g => if g = 0 then u32 d0 else f.dirty g, spRegId := u8 kSp, saRegId := u8 sa }
-  -- save sizes
-  let sz (pp : Bool) : Nat :=
-    (List.range 4).foldl (fun acc g => if hasPushPop a g = pp then u32 (acc + f1.groupSaveSize g) else acc) 0
-  let ppSize := u16 (sz true)
-  let xSize := u16 (sz false)
-  let v := u32 (0 + f.callSize)
-  let v := alignUp v stackAlignment
-  let localOff := v
-  let v := u32 (v + f.localSize)
-  let alignedVec := decide (vectorSize ≤ stackAlignment) && xSize != 0
-  let attrs := if alignedVec then f.attrs ||| 0x40 else f.attrs
-  let v := if alignedVec then alignUp v vectorSize else v
-  let xOff := v
-  let v := u32 (v + xSize)
-  let daSlot := hasDa && !hasFp
-  let daOff := if daSlot then v else invalidOff
-  let v := if daSlot then u32 (v + registerSize) else v
-  let v := if v != 0 || f.hasFuncCalls || retAddrSize == 0
-           then u32 (v + alignUpDiff (u32 (v + ppSize + retAddrSize)) stackAlignment) else v
-  let ppOff := v
-  let stackAdj := v
-  let v := u32 (v + ppSize)
-  let finalSize := v
-  let v := if a.lrId.isSome then v else u32 (v + registerSize)
-  let stackAdj := if hasDa then alignUp stackAdj stackAlignment else stackAdj
-  let saOffSp := if hasDa then invalidOff else v
-  let saOffSa := if hasFp then u32 (retAddrSize + registerSize) else u32 (retAddrSize + ppSize)
-  { f1 with attrs := attrs, ppSize := ppSize, xSize := xSize, localOff := localOff, xOff := xOff, daOff := daOff,
-            ppOff := ppOff, stackAdj := stackAdj, finalSize := finalSize, saOffSp := saOffSp, saOffSa := saOffSa }
+  { f with dirty := fun g => if g = 0 then u32 d0 else f.dirty g, spRegId := u8 kSp, saRegId := u8 sa }
+
+def Frame.regSize (f : Frame) : Nat := f.srSize 0
+def Frame.retAddrSize (f : Frame) : Nat := if f.arch.lrId.isSome then 0 else f.srSize 0
+
+/-- `save_restore_sizes[!has_inst_push_pop(group)]` summed over the four groups -/
+def Frame.saveSizeSum (f : Frame) (pp : Bool) : Nat :=
+  (List.range 4).foldl (fun acc g => if hasPushPop f.arch g = pp then u32 (acc + f.groupSaveSize g) else acc) 0
+def Frame.ppSizeC (f : Frame) : Nat := u16 (f.saveSizeSum true)
+def Frame.xSizeC (f : Frame) : Nat := u16 (f.saveSizeSum false)
+/-- `_local_stack_offset` -/
+def Frame.localOffC (f : Frame) : Nat := alignUp (u32 (0 + f.callSize)) f.finalAlign
+/-- `stack_alignment >= vector_size && _extra_reg_save_size` -/
+def Frame.alignedVecC (f : Frame) : Bool := decide (f.srSize 1 ≤ f.finalAlign) && f.xSizeC != 0
+/-- `_extra_reg_save_offset` -/
+def Frame.xOffC (f : Frame) : Nat :=
+  let v := u32 (f.localOffC + f.localSize)
+  if f.alignedVecC then alignUp v (f.srSize 1) else v
+def Frame.daSlotC (f : Frame) : Bool := f.hasDA && !f.hasFP
+def Frame.daOffC (f : Frame) : Nat := if f.daSlotC then u32 (f.xOffC + f.xSizeC) else invalidOff
+/-- `v` after the DA slot -/
+def Frame.vDaC (f : Frame) : Nat :=
+  let v := u32 (f.xOffC + f.xSizeC)
+  if f.daSlotC then u32 (v + f.regSize) else v
+/-- `_push_pop_save_offset` (= `_stack_adjustment` before the DA rounding) -/
+def Frame.ppOffC (f : Frame) : Nat :=
+  let v := f.vDaC
+  if v != 0 || f.hasFuncCalls || f.retAddrSize == 0
+  then u32 (v + alignUpDiff (u32 (v + f.ppSizeC + f.retAddrSize)) f.finalAlign) else v
+def Frame.finalSizeC (f : Frame) : Nat := u32 (f.ppOffC + f.ppSizeC)
+def Frame.stackAdjC (f : Frame) : Nat := if f.hasDA then alignUp f.ppOffC f.finalAlign else f.ppOffC
+def Frame.saOffSpC (f : Frame) : Nat :=
+  if f.hasDA then invalidOff else (if f.arch.lrId.isSome then f.finalSizeC else u32 (f.finalSizeC + f.regSize))
+def Frame.saOffSaC (f : Frame) : Nat :=
+  if f.hasFP then u32 (f.retAddrSize + f.regSize) else u32 (f.retAddrSize + f.ppSizeC)
+
+/-- second part of `finalize`: every layout field -/
+def Frame.layout (g : Frame) : Frame :=
+  { g with attrs := if g.alignedVecC then g.attrs ||| 0x40 else g.attrs,
+           ppSize := g.ppSizeC, xSize := g.xSizeC, localOff := g.localOffC, xOff := g.xOffC, daOff := g.daOffC,
+           ppOff := g.ppOffC, stackAdj := g.stackAdjC, finalSize := g.finalSizeC,
+           saOffSp := g.saOffSpC, saOffSa := g.saOffSaC }
+
+def Frame.finalize (f : Frame) : Frame := f.fin1.layout
 
 /-! ### x86: `emit_prolog` / `emit_epilog` -/
 
